@@ -28,6 +28,7 @@ from fractions import Fraction as F
 from lib.core import *
 from lib import gen_ls as g
 from lib import gen_net as gn
+from lib.exact_verdict import XJudge, exact_x_verdict      # the narrow rule for x lines on ill-conditioned problems
 from props import c01 as c01p
 
 ID = "C08"
@@ -86,7 +87,7 @@ MODELLED = c01p.MODELLED + ["gama-local's iteration of the linearisation and its
 ASSUMPTIONS = c01p.ASSUMPTIONS + ["network oracle: generated networks are well determined apart from the datum defect "
                                   "(runs reporting another defect are counted and skipped)"]
 TRUSTED = ["tools/lib/gen_ls.py exact rational kernel / 'resolves' decision / reference solution (the latter decides ls cases "
-           "whose x lines miss the componentwise 1e-9 comparison on an ill-conditioned problem: exact_x_verdict)",
+           "whose x lines miss the componentwise 1e-9 comparison on an ill-conditioned problem: tools/lib/exact_verdict.py)",
            "tools/lib/gen_net.py gkf writer and result reader"]
 
 ALGS = c01p.ALGS
@@ -220,46 +221,13 @@ def pair_oracle(p, A, a1, a2):
     return bad, max(dr / sc, dk / (sc * anorm))
 
 
-def exact_x_verdict(p, S, impl_line, model_line, corr=None):
-    """the x lines of implementation and model differ by more than the componentwise 1e-9 of the stream's comparator.
-    Both are then measured against the EXACT minimum-S-norm solution x* (rational arithmetic, gen_ls.reference) in the
-    norm a linear solver is accurate in: max_i |x_i - x*_i| <= tol * (1 + max_i |x*_i|) with
-    tol = min(eps * kappa, 1e-7), kappa = |N|_inf * |Q|_inf (N = A'PA, Q its regularised inverse, both exact): eps*kappa
-    is the first-order forward error of a backward-stable solution of the normal equations.  Accepted only when the
-    problem IS ill conditioned (eps * kappa >= 1e-9, i.e. kappa >= 4.5e6: below that rounding cannot explain a miss of
-    1e-9 and the case stays a disagreement) and BOTH sides are that close to x* (thorough run 3: 17 x 19 'parts'
-    problem, banded covariance of width 15, kappa = 7.3e9, cond_2(A'PA) = 3e9: implementation and model 1.3e-8
-    componentwise / 2e-10 normwise from x*, on opposite sides).  returns (accepted, explanation)"""
-    xi, xm = vec(impl_line), vec(model_line)
-    if xi is None or xm is None or len(xi) != p["n"] or len(xm) != p["n"]:
-        return False, "x not answered by both sides"
-    try:
-        ref = g.reference(p, S)
-    except (ZeroDivisionError, IndexError):
-        return False, "no exact reference (subset does not resolve the defect)"
-    xe = ref["x"]
-    kappa = float(max(sum(abs(v) for v in r) for r in ref["N"]) * max(sum(abs(v) for v in r) for r in ref["Q"]))
-    tol = min(1e-7, 2.2e-16 * kappa)
-    scale = 1.0 + float(max(abs(v) for v in xe))
-    di = max(abs(float(F(a) - e)) for a, e in zip(xi, xe)) / scale
-    dm = max(abs(float(F(a) - e)) for a, e in zip(xm, xe)) / scale
-    if corr is not None:
-        corr.maxstat("ls_x_judged_max_kappa", kappa)
-        corr.maxstat("ls_x_judged_max_dev_impl", di)
-        corr.maxstat("ls_x_judged_max_dev_model", dm)
-    why = (f"against the exact solution: implementation {di:.3g}, model {dm:.3g} (normwise, relative), "
-           f"tolerance {tol:.3g} = eps*kappa, kappa = {kappa:.3g}")
-    if tol < 1e-9:
-        return False, "problem is well conditioned (rounding does not explain the difference); " + why
-    return (di <= tol and dm <= tol), why
-
-
 def ls_stream(ctx, corr, nprob, exe=None, with_model=True):
     exe = exe or harness(ctx)
     cases, meta, groups = make_ls_cases(ctx, nprob)
     impl, crashes = run_cases(exe, cases)
     model = run_cases(ctx.driver("drv_ls"), cases)[0] if with_model else None
     answers = {}
+    judge = XJudge(corr, "ls_x")
     for i, (c, (pi, p, S, alg, entry)) in enumerate(zip(cases, meta)):
         nontrivial = len(S) < p["n"] or not p["unit_cov"]
         corr.case(key=("ls " + " ".join(c)) if nontrivial else None,
@@ -285,17 +253,12 @@ def ls_stream(ctx, corr, nprob, exe=None, with_model=True):
                     continue
                 if not lines_equal(a, b, rtol=1e-9, atol=1e-9):
                     miss.append(k)
-            if miss == [2] and len(impl[i]) == len(model[i]) and corr.stats.get("ls_x_judged_by_exact_reference", 0) < 60:
+            if miss:
                 # only the x line misses the componentwise 1e-9 comparison: model or implementation wrong, or rounding on
-                # an ill-conditioned problem?  decided against the EXACT solution (see exact_x_verdict); never silently
-                corr.count("ls_x_judged_by_exact_reference")
-                ok, why = exact_x_verdict(p, S, impl[i][2], model[i][2], corr)
-                if ok:
-                    corr.count("ls_x_rounding_on_ill_conditioned_problem")
-                else:
-                    corr.disagree("ls", c, impl[i], model[i], site + ": " + why)
-            elif miss:
-                corr.disagree("ls", c, impl[i], model[i], site)
+                # an ill-conditioned problem?  decided against the EXACT solution (tools/lib/exact_verdict.py); never silently
+                ok, why = judge.misses(p, S, impl[i], model[i], miss, x_at=(2,))
+                if not ok:
+                    corr.disagree("ls", c, impl[i], model[i], site + (": " + why if why else ""))
             elif len(impl[i]) != len(model[i]):
                 corr.disagree("ls", c, impl[i], model[i], "length")
             corr.count("ls_not_modelled" if nm else "ls_modelled")
@@ -327,9 +290,7 @@ def ls_stream(ctx, corr, nprob, exe=None, with_model=True):
                                                "subset": meta[i][2], "subset2": meta[j][2]},
                           f"{alg}/{entry}", " | ".join(impl[i]) + "  ||  " + " | ".join(impl[j]))
     corr.count("ls_pairs_checked", npairs)
-    judged = corr.stats.get("ls_x_judged_by_exact_reference", 0)
-    if judged > max(12, len(cases) // 1000):
-        corr.inconclusive.append(f"{judged} ls cases needed the exact reference to compare x (more than 0.1% of the cases)")
+    judge.finish(len(cases))
     for k, need in (("ls_cases_defect_exactly_3", 60), ("ls_cases_defect_exactly_4", 60), ("ls_cases_defect_ge3_proper_subset", 120)):
         if with_model and corr.stats.get(k, 0) < need:
             corr.inconclusive.append(f"ls case mix: {k} = {corr.stats.get(k, 0)} < {need}")
